@@ -201,8 +201,12 @@ def kernel_programs(count, rng, mask=0):
         rng.shuffle(others)
         x, y = others[0], others[1]
         ops = []
-        for _ in range(rng.randint(1, 2)):
-            t = rng.choice([x, x, y, rng.choice(darts)])
+        # edits of the spare darts AND of the darts around the edge itself (its two darts and their successors): the kernel
+        # must see every one of them through the transaction
+        be = b2[e]
+        around = [d for d in (e, be, b1[e], b1[be] if be else 0) if d]
+        for _ in range(rng.randint(1, 3)):
+            t = rng.choice([x, x, y, rng.choice(darts)] + around + around)
             o = rng.choice(darts)
             ops.append(rng.choice([f"link 2 {t} {o}", f"link 1 {t} {o}", f"link 1 {o} {t}", f"unlink 2 {t}", f"unlink 1 {t}",
                                    f"unsew 2 {t}", f"unsew 1 {t}", f"sew 2 {t} {o}", f"unlink 1 {o}"]))
@@ -213,6 +217,32 @@ def kernel_programs(count, rng, mask=0):
         k = len(ops)
         lines = init + ["snap"] + ops + ["snap"] + init + ["tx"] + ops + ["endtx", "snap"]
         cases.append(Case(f"k{c}", lines, oracle="c08k", meta={"sig": "kernel-program", "k": k, "ninit": len(init)}))
+    # structured family: a two-dart edge 1|2 with successors, free alternative successors and free spare darts; the
+    # program first re-routes a successor of one of the two edge darts (or bisects the same edge) and then inserts
+    for c in range(count // 4):
+        n = 10
+        b0 = [0] * (n + 1); b1 = [0] * (n + 1); b2 = [0] * (n + 1)
+        b2[1], b2[2] = 2, 1
+        if rng.random() < 0.8:
+            b1[1], b0[3] = 3, 1
+        if rng.random() < 0.8:
+            b1[2], b0[4] = 4, 2
+        init = [gens.load_line(2, n, mask, [b0, b1, b2], [0] * (n + 1))] + [f"wv {d} {gens.dy(rng)} {gens.dy(rng)}" for d in range(1, 7)]
+        pre = []
+        side = rng.choice([1, 2])
+        kind = rng.random()
+        if kind < 0.4 and b1[side]:
+            pre = [f"unlink 1 {side}", f"link 1 {side} {rng.choice([5, 6])}"]
+        elif kind < 0.6 and not b1[side]:
+            pre = [f"link 1 {side} {rng.choice([5, 6])}"]
+        elif kind < 0.8:
+            pre = [f"insv 1 7 8 {rng.choice(['-', '1/4'])}"]
+        else:
+            pre = [f"unsew 1 {side}"] if b1[side] else [f"sew 1 {side} 5"]
+        last = rng.choice([f"insv 1 9 10 {rng.choice(['-', '3/4'])}", "insvs 1 2 9 10 1/2", f"insv 2 9 10 -"])
+        ops = pre + [last]
+        lines = init + ["snap"] + ops + ["snap"] + init + ["tx"] + ops + ["endtx", "snap"]
+        cases.append(Case(f"ks{c}", lines, oracle="c08k", meta={"sig": "kernel-program", "k": len(ops), "ninit": len(init)}))
     # the design-round witness and its mirror image
     w = ["load 2 4 0 0 0 1 0 0 ; 0 2 0 0 0 ; 0 0 0 0 0 ; 0 0 0 0 0", "wv 1 0 0", "wv 2 1 0"]
     for name, init, ops in (("d3", w, ["link 2 3 4", "insv 1 3 0 -"]),
@@ -220,6 +250,37 @@ def kernel_programs(count, rng, mask=0):
                              ["unlink 2 3", "insv 1 3 0 -"])):
         lines = init + ["snap"] + ops + ["snap"] + init + ["tx"] + ops + ["endtx", "snap"]
         cases.append(Case(name, lines, oracle="c08k", meta={"sig": "kernel-program", "k": len(ops), "ninit": len(init)}))
+    return cases
+
+
+def remesh_programs(count, rng):
+    """separate stream (C15 kernels): programs of swap / cut / collapse mixed with core operations on small split grids (with and
+    without anchors), run as a sequence of single transactions and as one block; same layout and oracle as `kernel_programs`"""
+    from props import c15
+    cases = []
+    cfgs = [(1, 1, 0, False), (2, 1, 0, False), (2, 2, 0, False), (2, 1, 224, True), (2, 2, 225, True)]
+    for c in range(count):
+        nx, ny, mask, anchors = rng.choice(cfgs)
+        pre, g = c15.setup(nx, ny, mask, rng, anchors)
+        init = list(pre) + ["add 12"]
+        sp = list(range(g.n, g.n + 12))
+        ops = []
+        for _ in range(rng.randint(1, 3)):
+            e = rng.choice(g.linked)
+            r = rng.random()
+            if r < 0.25:
+                ops.append(f"swap {e}")
+            elif r < 0.5:
+                ops.append(f"collapse {e}")
+            elif r < 0.75 and len(sp) >= 8:
+                k = 6 if g.b[2][e] else 3
+                ops.append(("cutin" if k == 6 else "cutout") + f" {e} " + " ".join(map(str, sp[:k])))
+                sp = sp[k:]
+            else:
+                ops.append(rng.choice([f"unsew 1 {e}", f"unsew 2 {e}", f"sew 2 {e} {rng.choice(g.linked)}", f"vid {e}",
+                                       f"link 2 {g.n + 10} {g.n + 11}", f"unlink 1 {e}"]))
+        lines = init + ["snap"] + ops + ["snap"] + init + ["tx"] + ops + ["endtx", "snap"]
+        cases.append(Case(f"rm{c}", lines, oracle="c08k", meta={"sig": "remesh-program", "k": len(ops), "ninit": len(init)}))
     return cases
 
 
@@ -235,8 +296,10 @@ def run(tier, seed):
     r["stats"]["all_ok_programs"] = N_ALLOK[0]
     rk = hv.campaign(kernel_programs(4000 if tier == "quick" else 40000, rng), oracle_c08k, max_report=30)
     rk["violations"] = dedupe_k(rk["violations"])
+    rr = hv.campaign(remesh_programs(1500 if tier == "quick" else 20000, rng), oracle_c08k, max_report=30)
     res = hv.merge_results([("random straight-line programs, sequence vs one block", r),
-                            ("kernels with non-transactional reads after edits of their spare darts (scan_tx hit list)", rk)])
+                            ("kernels with non-transactional reads after edits of their spare darts (scan_tx hit list)", rk),
+                            ("remeshing kernels (swap / cut / collapse) composed with core operations", rr)])
     res["stats"]["all_ok_programs"] = N_ALLOK[0]
     return res
 
